@@ -194,6 +194,7 @@ LEVEL_TEXT = ('Generated-input search over both layers, all filter families (ban
               '(0 included), colour combination, batch/channel counts, sizes 2..40 and input kinds (zero, sparse, constant, '
               'scaled): outputs are compared value by value with the reference NumPy DTCWT composed with the formulas of the '
               'property, plus documented shape, finiteness and non-negativity of every magnitude channel.')
+LEVEL_TEXT += (' Also generated: eval() mode, autograd contexts, the same call with an input requiring grad (same numbers), oriented gratings.')
 LEVEL_NOTE = ('Trusts dtcwt 0.14 and the stated formulas; for second-order sizes that are not multiples of 8 values are compared '
               'only on edge-constant images (either split of the extension accepted); known finding KF-D10 (H or W == 2).')
 TECHNIQUE = 'property-based testing (Hypothesis), reference-model oracle (NumPy dtcwt + closed-form scattering formulas)'
